@@ -182,6 +182,10 @@ pub struct StreamWorld {
 
 pub fn stream_world(rng: &mut ChaCha20Rng, max_deg_cap: usize) -> Result<StreamWorld, Out> {
     let max_degree = if crate::schemes::is_large() { range(rng, 1023, 2100) } else { skewed(rng, 1, max_deg_cap) };
+    stream_world_deg(rng, max_degree)
+}
+
+pub fn stream_world_deg(rng: &mut ChaCha20Rng, max_degree: usize) -> Result<StreamWorld, Out> {
     let max_pts = range(rng, 1, 8);
     let ck = guard(|| SCk::<E>::new(max_degree, max_pts, rng)).map_err(Out::Panic)?;
     let vk = SVk::from(&ck);
